@@ -169,9 +169,11 @@ func runC16(c C16Case) string {
 		if err != nil {
 			return fmt.Sprintf("MarshalText fails: %v", err) + desc()
 		}
-		text2, err := ion.MarshalText(arg)
-		if err != nil || !bytes.Equal(text1, text2) {
-			return fmt.Sprintf("MarshalText is not deterministic: %q vs %q (%v)", text1, text2, err) + desc()
+		for rep := 0; rep < 4; rep++ {
+			text2, err := ion.MarshalText(arg)
+			if err != nil || !bytes.Equal(text1, text2) {
+				return fmt.Sprintf("MarshalText is not deterministic: %q vs %q (%v)", text1, text2, err) + desc()
+			}
 		}
 		bin, err := ion.MarshalBinary(arg)
 		if err != nil {
@@ -750,11 +752,11 @@ func genGoVal(t *rapid.T, d drive.TypeDesc, depth int) drive.GoVal {
 		if gen.Chance(t, 20) {
 			g.Nil = true
 		} else {
-			n := gen.Pick(t, []int{0, 1, 2, 3})
+			n := gen.Pick(t, []int{0, 1, 2, 3, 5, 8})
 			seen := map[string]bool{}
 			g.Elems = []drive.GoVal{}
 			for i := 0; i < n; i++ {
-				k := gen.Pick(t, []string{"k1", "k2", "a", "", "x y", "é", "name", "$ion_symbol_table", "null", "zz"})
+				k := gen.Pick(t, []string{"k1", "k2", "a", "", "x y", "é", "name", "$ion_symbol_table", "null", "zz", "K1", "A", "Name", "ZZ", "Zz", "etag", "ETag"})
 				if seen[k] {
 					continue
 				}
